@@ -212,7 +212,8 @@ impl AggregateExecutionEngine {
 
                 if let Value::Array(element_type, array) = group_value {
                     if let Some(value_type) = column_value.value_type() {
-                        if array.iter().all(|element| element.is_null()) {
+                        // (only a provisional type can differ; the scan is skipped once the type is settled)
+                        if *element_type != value_type && array.iter().all(|element| element.is_null()) {
                             *element_type = value_type;
                         }
                     }
